@@ -254,6 +254,39 @@ func (e *Exec) intrinsic(st *State, fn *ssa.Function, args []Value, callSite ssa
 		st.heap[o] = copyAgg(e.zero(at), st.epoch)
 		nn := c.BVConst(uint64(n), 64)
 		return ret(st, &SliceV{Base: &PtrV{Obj: o}, Off: c.BVConst(0, 64), Len: nn, Cap: nn}), true
+	case "hash/maphash.MakeSeed":
+		// an arbitrary but fixed seed
+		return ret(st, &StructV{F: []Value{c.BVConst(0x9e3779b97f4a7c15, 64)}}), true
+	case "(*hash/maphash.Hash).SetSeed":
+		h := args[0].(*PtrV)
+		hv := e.load(st, h).(*StructV)
+		hv.F[1], hv.F[2] = args[1], args[1]
+		e.store(st, h, hv)
+		return ret(st, nil), true
+	case "(*hash/maphash.Hash).WriteString", "(*hash/maphash.Hash).Write":
+		// the hash is an uninterpreted fold over the bytes written (collisions are therefore possible)
+		h := args[0].(*PtrV)
+		hv := e.load(st, h).(*StructV)
+		acc := hv.F[2].(*StructV).F[0].(*Term)
+		s := e.asStr(st, args[1])
+		off, ln, ok := strWindow(s)
+		if !ok {
+			panic(unsupported("maphash over a string of symbolic length"))
+		}
+		for i := 0; i < ln; i++ {
+			if acc.IsConst() && s.B[off+i].IsConst() {
+				// concrete bytes: a concrete FNV-1a step keeps map keys concrete
+				acc = c.BVConst((acc.val^s.B[off+i].val)*1099511628211, 64)
+			} else {
+				acc = c.UF("maphash", BV(64), acc, c.Zext(s.B[off+i], 64))
+			}
+		}
+		hv.F[2] = &StructV{F: []Value{acc}}
+		e.store(st, h, hv)
+		return ret(st, &StructV{F: []Value{s.Len, &IfaceV{}}}), true
+	case "(*hash/maphash.Hash).Sum64":
+		hv := e.load(st, args[0].(*PtrV)).(*StructV)
+		return ret(st, hv.F[2].(*StructV).F[0]), true
 	case "(*strings.Builder).String":
 		bv := e.load(st, args[0].(*PtrV)).(*StructV)
 		return ret(st, e.bytesToStr(st, bv.F[1].(*SliceV))), true
